@@ -22,7 +22,7 @@ CFG = {
         "Parsley.C18.run_returns_peg_any", "Parsley.C18.run_never_panics_any",
     ],
     "partial": {},
-    "n": {"quick": 6000, "thorough": 400000},
+    "n": {"quick": 6000, "thorough": 1000000},
     "exhaustive": {"quick": False, "thorough": True},
     "rule": "corpus (the crate's own 9 test expressions + hand-built backtracking/lookahead/non-ASCII cases) first; "
             "exhaustive: every expression of depth <= 1 (quick) / <= 2 (thorough; 1515 expressions, those with a non-consuming star "
